@@ -369,7 +369,7 @@ def gen_build(r, case_dir, broken_links=False):
 def include_toml(includes):
     rows = []
     for i in includes:
-        row = f'{{ path = {json.dumps(i["path"])}, relative-to = "target"'
+        row = f'{{ path = {json.dumps(i["path"], ensure_ascii=False)}, relative-to = "target"'
         if i["depth"] is not None:
             row += f', depth = {json.dumps(i["depth"])}'
         if i["on_missing"] is not None:
@@ -1159,9 +1159,15 @@ def probe_flavour(binary):
     apply_preseed(dest, [("dir", "target", None), ("link", "target/a", "..")])
     open(a, "wb").write(zstd_store(tar_entry(b"target/a/probe", b"P") + TAR_END))
     ex2 = harness(binary, [dict(op="extract", archive=a, dest=dest, overwrite=True)])[0]
-    f23 = ex2.get("err") == "write-file" and not os.path.lexists(os.path.join(dest, "probe"))
+    f23 = not os.path.lexists(os.path.join(dest, "probe"))     # whatever the reported outcome
     rm(sb)
     return dict(f19=ex.get("err") == "link-entry", f23=f23)
+
+
+def listed_finding(fid):
+    """is the finding still listed as open in known_findings.json? (a `fixed:` entry suppresses nothing)"""
+    return any(f.get("property") == PROP and f.get("id") == fid
+               for f in vlib.known_findings().get("findings", []))
 
 
 def section_hostile(chk, r, binary, n, flav, nextest=None, n_cli=0, corpus_cases=(), sandbox_names=None):
@@ -1265,7 +1271,7 @@ def section_hostile(chk, r, binary, n, flav, nextest=None, n_cli=0, corpus_cases
                 why = (f"entry {bad_i} ({e['raw'].decode('utf-8', 'backslashreplace')!r}, checksum "
                        f"{'ok' if e['cksum_ok'] else 'bad'}) has a non-normal path or a bad checksum and was not rejected")
         if why:
-            if not fixed and h["has_link"]:
+            if not fixed and h["has_link"] and listed_finding("F19"):
                 chk.known_finding("F19 an archive with a symbolic link entry followed by an entry through it "
                                   "writes or changes permissions outside <dest>/target "
                                   "(unarchiver accepts link entries)")
